@@ -61,10 +61,13 @@ pub struct EncOpts {
 	pub with_index: bool,
 	/// `tiles` is a view over `map` + `images` (as written by tilelive / mapbox tools)
 	pub tiles_as_view: bool,
+	/// with `tiles_as_view`: a few `map` rows whose image is missing (the view is a LEFT JOIN, the row shows up
+	/// with tile_data NULL). They lie inside the bounds of the real tiles and denote no tile.
+	pub dangling_rows: bool,
 }
 impl EncOpts {
 	pub fn random(rng: &mut Rng) -> EncOpts {
-		EncOpts { extra_metadata: rng.chance(0.5), with_bounds: rng.chance(0.5), shuffle: rng.chance(0.5), with_index: rng.chance(0.7), tiles_as_view: rng.chance(0.35) }
+		EncOpts { extra_metadata: rng.chance(0.5), with_bounds: rng.chance(0.5), shuffle: rng.chance(0.5), with_index: rng.chance(0.7), tiles_as_view: rng.chance(0.35), dangling_rows: rng.chance(0.4) }
 	}
 }
 
@@ -80,6 +83,7 @@ pub fn encode(ts: &TileSet, path: &Path, o: &EncOpts, rng: &mut Rng) -> Result<(
 			 CREATE UNIQUE INDEX images_id ON images (tile_id);
 			 CREATE VIEW tiles AS SELECT map.zoom_level AS zoom_level, map.tile_column AS tile_column, map.tile_row AS tile_row, images.tile_data AS tile_data FROM map JOIN images ON images.tile_id = map.tile_id;",
 		)
+		.and_then(|_| if o.dangling_rows { conn.execute_batch("DROP VIEW tiles; CREATE VIEW tiles AS SELECT map.zoom_level AS zoom_level, map.tile_column AS tile_column, map.tile_row AS tile_row, images.tile_data AS tile_data FROM map LEFT JOIN images ON images.tile_id = map.tile_id;") } else { Ok(()) })
 		.map_err(|e| e.to_string())?;
 	} else {
 		conn.execute_batch(
@@ -120,6 +124,29 @@ pub fn encode(ts: &TileSet, path: &Path, o: &EncOpts, rng: &mut Rng) -> Result<(
 			tx.execute("INSERT INTO map VALUES (?1, ?2, ?3, ?4)", params![k.0 as i64, k.1 as i64, row, id]).map_err(|e| e.to_string())?;
 		} else {
 			tx.execute("INSERT INTO tiles VALUES (?1, ?2, ?3, ?4)", params![k.0 as i64, k.1 as i64, row, v]).map_err(|e| e.to_string())?;
+		}
+	}
+	if o.tiles_as_view && o.dangling_rows {
+		let bounds = ts.bounds();
+		let mut added = 0;
+		let mut scanned = 0u32;
+		for (z, b) in &bounds {
+			for x in b.0..=b.2 {
+				for y in b.1..=b.3 {
+					scanned += 1;
+					if scanned > 3000 {
+						break;
+					}
+					if added < 3 && !ts.tiles.contains_key(&(*z, x, y)) && rng.chance(0.3) {
+						let row = (1i64 << z) - 1 - y as i64;
+						tx.execute("INSERT INTO map VALUES (?1, ?2, ?3, ?4)", params![*z as i64, x as i64, row, format!("missing-{added}")]).map_err(|e| e.to_string())?;
+						added += 1;
+					}
+				}
+				if added >= 3 || scanned > 3000 {
+					break;
+				}
+			}
 		}
 	}
 	tx.commit().map_err(|e| e.to_string())?;
